@@ -275,6 +275,26 @@ def special_cases(names):
     out.append(('and', None, (
         ('eq', None, (B.Sym('q1', P1), B.Sym('q2', P1))),
         ('eq', None, (B.Sym('q3', P2), B.Sym('q4', P2))))))
+    # several custom sorts in one formula: parametric constructors at two
+    # or more instances (also nested in each other and in arrays) next to
+    # plain sorts, in many orders: each must be declared once, before use
+    srng = random.Random(7)
+    UA, UB, UX = ('U', 'SA'), ('U', 'SB'), ('U', 'SX')
+    pool = [UA, UB, UX, ('U', 'P1', (UA,)), ('U', 'P1', (UB,)),
+            ('U', 'P1', (B.INT,)), ('U', 'Pair', (UX, UA)),
+            ('U', 'Pair', (('U', 'P1', (UA,)), ('U', 'P1', (UB,)))),
+            ('U', 'P1', (('U', 'P1', (UX,)),)),
+            B.ARR(UX, B.ARR(('U', 'P1', (UA,)), ('U', 'P1', (UB,)))),
+            B.ARR(('U', 'P1', (UA,)), ('U', 'Pair', (B.INT, UX))),
+            B.ARR(('U', 'Pair', (UB, UB)), UX)]
+    for i in range(36):
+        ts = srng.sample(pool, srng.randint(1, 4))
+        cj = [('eq', None, (B.Sym('m%d_%d' % (k, 0), t),
+                            B.Sym('m%d_%d' % (k, 1), t)))
+              for k, t in enumerate(ts)]
+        if i % 3 == 0:
+            cj[0] = ('not', None, (cj[0],))
+        out.append(('and', None, tuple(cj + [p])))
     # sorts that occur only in a binder
     for qt in (('U', 'OnlyBound'), B.ARR(('U', 'OnlyIdx'), B.INT),
                ('U', 'Pair', (('U', 'OnlyArg'), B.INT)), B.BV(5)):
